@@ -181,7 +181,12 @@ func (x *TExec) opConnect(st *TStep) { //nolint:cyclop
 		x.waitS = st.N + 2
 		x.St.inc("tcp:connect-slow-dial")
 	}
+	if st.Dup {
+		sim.RepeatNextRand64()
+		x.St.inc("tcp:connect-with-repeating-random-source")
+	}
 	resp, _ := x.request(c, c.ctrl, &c.rbuf, ui, m)
+	sim.CancelRepeatRand64()
 	x.waitS = 0
 	x.w.gen.mu.Lock()
 	x.w.gen.dialDelay = 0
@@ -223,6 +228,17 @@ func (x *TExec) opConnect(st *TStep) { //nolint:cyclop
 
 		return
 	}
+	if !ok && st.Dup {
+		// the id drawn was taken: refusing (or not answering) the Connect is fine, as long as the
+		// connection that was dialled for it does not stay behind
+		x.settle()
+		if pe := x.w.peers[pi].TryAccept(); pe != nil && !pe.Peer().IsClosed() {
+			x.fail([]string{"C16", "C15"}, "peer-connection-not-closed", "Connect refused (%s) after the id drawn for it was taken, but the connection dialled to %v stays open", respDesc(resp), p)
+		}
+		x.St.inc("tcp:connect-refused-on-id-collision")
+
+		return
+	}
 	if !ok {
 		props := []string{"X00"}
 		for _, o := range x.w.clients {
@@ -243,9 +259,36 @@ func (x *TExec) opConnect(st *TStep) { //nolint:cyclop
 	}
 	id := binary.BigEndian.Uint32(idv)
 	if x.w.seenIDs[id] {
-		x.fail([]string{"C16"}, "connection-id-reused", "CONNECTION-ID %#x was handed out before", id)
+		x.purge()        // (a slow dial may have outlasted a pending connection's bind deadline)
+		inUse := !st.Dup // (with a repeating random source an id whose connection is gone may come back)
+		for _, o := range x.w.clients {
+			if o.alloc != nil {
+				for _, tc := range o.alloc.conns {
+					inUse = inUse || (tc.id == id && !tc.gone)
+				}
+			}
+		}
+		if inUse {
+			x.fail([]string{"C16"}, "connection-id-reused", "CONNECTION-ID %#x was handed out before (and names a connection that is still there)", id)
 
-		return
+			return
+		}
+		// the id now names the new connection: the model's records of its former holders get an
+		// id nobody was ever given, so that later binds aimed at them stay binds to a dead id
+		for _, o := range x.w.clients {
+			for _, al := range append([]*tAlloc{o.alloc}, x.w.gone...) {
+				if al == nil {
+					continue
+				}
+				for _, old := range al.conns {
+					if old.id == id && old.gone {
+						x.w.tombstones++
+						old.id = 0xDEAD8000 + uint32(x.w.tombstones) //nolint:gosec
+					}
+				}
+			}
+		}
+		x.St.inc("tcp:connection-id-of-a-gone-connection-drawn-again")
 	}
 	x.w.seenIDs[id] = true
 	// a real connection from the relayed address must have reached the peer
@@ -270,6 +313,9 @@ func (x *TExec) opConnect(st *TStep) { //nolint:cyclop
 	if !treg.Before(a.deadline) {
 		tc.orphan = true // the allocation expired while the dial was in flight
 		x.St.inc("tcp:connect-outlives-allocation")
+	}
+	if c.alloc != a && !tc.orphan {
+		tc.gone = true // the allocation ran out while this step was under way (the purge above saw it)
 	}
 	a.conns = append(a.conns, tc)
 	x.St.inc("tcp:connect-success")
